@@ -167,6 +167,15 @@ def run (args : List String) : Option String :=
     -- candidates of a geometry query as found (before fix2-C12) and as repaired
     let t ← parseTGB? crs lin W ny nx ty tx; let q ← parseQuad? q
     pure (fmtRes fmtIdxs (candidatesAsFound t q) ++ " " ++ fmtRes fmtIdxs (candidatesWorld t.g t.W id q.bbox))
+  | ["fpp", crs, lin, W, ny, nx, ty, tx, buffer, npoints] => do
+    -- numbers `footprint(crs, buffer, npoints)` hands to shapely's buffer and to to_crs
+    let t ← parseTGB? crs lin W ny nx ty tx; let b ← parseRat? buffer; let n ← parseRat? npoints
+    let r := footprintParams t b n
+    pure s!"{fmtOpt fmtRat r.1} {fmtRat r.2}"
+  | ["fppx", dcrs, dlin, dW, dny, dnx, dty, dtx, scrs, slin, sW, sny, snx, sty, stx] => do
+    let d ← parseTGB? dcrs dlin dW dny dnx dty dtx; let s ← parseTGB? scrs slin sW sny snx sty stx
+    let r := crossFootprintParams d s
+    pure s!"{fmtOpt fmtRat r.1.1} {fmtRat r.1.2} {fmtOpt fmtRat r.2.1} {fmtRat r.2.2}"
   | ["cvx", p, q] => do
     -- reference semantics of shapely `disjoint` on convex rings
     let p ← parseQuad? p; let q ← parseQuad? q
